@@ -70,6 +70,10 @@ def gen_case(rng):
     if ops is not None:
         budgets["ops_reflection"] = ops
     cfg = merge(cfg, {"scheduler": {"budgets": budgets}})
+    if rng.random() < 0.3:
+        # the older top-level budgets block next to it (as the shipped config file carries it), with looser values: the
+        # scheduler's budgets are the ones that bind
+        cfg["budgets"] = {"time_ms_reflection": 6000, "ops_reflection": 5}
     tpl = rng.choice([None, "{labels}!!! ... ??? {intent}", "Ünïcödé {labels} — {snippets_text}", "   ", "word " * 300, "{snippets_text}",
                       # words separated by white space that is not ASCII (NBSP, ideographic space, em space, narrow NBSP, LS, NEL)
                       "alpha\u00a0beta\u3000gamma\u2003delta\u202fepsilon\u2028zeta\u0085eta {labels}", "{labels}\u00a0{intent}\u3000{snippets_text}\u2003tail\u00a0end"])
